@@ -21,7 +21,7 @@ CLAIMED = {
               "private helpers are summarised and their effects charged to the public callers; copy()/clone() definitions must build "
               "their result from copied parts, looping over ALL entries of the container they copy; the real MPS copy()/clone()/shallow_copy() run on "
               "ghost tensors with a central block on every bond (every entry independent / shared as documented); call sites of the in-place kernel "
-              "fix_svd_signs must pass fresh arrays. The from_dict site "
+              "fix_svd_signs must pass fresh arrays; a library call told to work in place (overwrite_*=True, out=) is a store into that argument. The from_dict site "
               "that needs path sensitivity is discharged by symbolic execution (C17 obligations). Decided for all inputs and histories "
               "because the obligations are on the code, not on runs."),
         design_ref='DESIGN.md §5 C15',
@@ -38,9 +38,12 @@ CLAIMED = {
               "set_cache_maxsize / get_cache_info administer exactly the memoised functions; K (key adequacy) over harness runs covering every way the "
               "callers build each key component (fermionic True / per-component tuples, all symmetries, policies), the scalars inside a component are "
               "never bools in one call and ints in another (True == 1 would let two configurations share an entry). Together with the fact that all SMT packs "
-              "interpret the UNcached bodies, cached and uncached execution are extensionally equal for every history."),
-        design_ref='DESIGN.md §5 C16',
-        note="Trusted: functools.lru_cache, hashability/equality of argument types (Python raises on unhashable keys), pyvc.frame's rules. Callers outside the analysed files are not seen. No bounded cold/warm relational run was built.",
+              "interpret the UNcached bodies, cached and uncached execution are extensionally equal for every history. S: no function of the analysed files "
+              "or of yastn/sym keeps state across calls outside those caches (stores into module-level objects, global rebinding, stores into the class "
+              "object) except set_cache_maxsize and random_seed; for a hand-made memo D[key] = value the argument paths the value depends on must be "
+              "determined by the key (fails otherwise; undecided when nothing is missing)."),
+        design_ref='DESIGN.md §5 C16, §12.11, §12.12',
+        note="Trusted: functools.lru_cache, hashability/equality of argument types (Python raises on unhashable keys), pyvc.frame's rules. Callers outside the analysed files are not seen. BOUNDED (never counted as proved): tools/cache_relational.py runs 30 configurations with coinciding struct/slices x 17 operations under 7 cache regimes, each in a fresh interpreter, and compares bit for bit with a cold run. Observation (not part of the statement): set_cache_maxsize rebinds names that other modules imported by value, so the resized caches are not the live ones; results are unaffected.",
         technique='read-frame / write-frame / result-ownership contracts on memoised functions decided by AST analysis',
     ),
     'C17': dict(
@@ -98,7 +101,9 @@ CLAIMED = {
               "fuse+unfuse (norm and values), apply_mask (selection of the masked positions, lazy operand), ncon and einsum (permuted outputs, "
               "three tensors to a number under several orders, conjugated operands, trace inside a network, outer product), and "
               "blocks+get_legs re-assemble to_numpy. COMPLEX data (entries re + i*im with symbolic parts): conj, the conj= flags of tensordot and vdot, "
-              "lazy operands in vdot, complex scalar multiples, trace, |a|^2 -- real and imaginary parts as separate polynomial identities."),
+              "lazy operands in vdot, complex scalar multiples, trace, |a|^2 -- real and imaginary parts as separate polynomial identities. (C) trace over two "
+              "hard-fused legs of different sector content while a lazy transpose or a meta-fused leg in front moves them away from their native positions "
+              "equals the unfused dense trace (concrete structures, symbolic data)."),
         design_ref='DESIGN.md §5 C01',
         note=TRUST + "Part B is complete in the data but bounded in structure (enumerated concrete charges/dimensions, enumerated network shapes); floats treated as reals; complex dtypes covered for the conjugation-sensitive operations only.",
         technique='symbolic execution of the real metadata code AND the real NumPy kernels on symbolic real data; polynomial identities decided exactly by sum-of-monomials normal forms (pyvc.poly), otherwise z3 NRA',
@@ -176,8 +181,9 @@ CLAIMED = {
               "Env_mps_mpo_mps with and without precompute, Env_sum, Env_project: measure at every bond, Heff0/Heff1/Heff2 as multilinear forms, "
               "refresh after a site changes) equal the independent dense contraction, as polynomial identities decided exactly; also for COMPLEX tensors "
               "(bra conjugated, conj / transpose / conjugate_transpose, complex amplitudes), reverse_sites, operators as vectors (Tr(A^+ H B), on_bra: "
-              "Tr(A^+ B H), Env_mpo_mpo_mpo / Env_mpo_mpobra_mpo) and periodic MPOs acting on open states (Env_mps_mpopbc_mps). BOUNDED (not counted as "
-              "proved): product states, mps_from_tensor / mpo_from_tensor, zipper and variational compression without truncation, canonical forms, "
+              "Tr(A^+ B H), Env_mpo_mpo_mpo / Env_mpo_mpobra_mpo) and periodic MPOs acting on open states (Env_mps_mpopbc_mps); the projection maps of "
+              "compression_ (project_ket_on_bra_1/2) for single targets and SUMS of targets whose kets carry different norm factors. BOUNDED (not counted as "
+              "proved): product states, mps_from_tensor / mpo_from_tensor, zipper and variational compression (single target and sum of targets) without truncation, canonical forms, "
               "Schmidt values and reported truncation error against dense NumPy (5 operator families, N = 2..4/5, 1e-9)."),
         design_ref='DESIGN.md §5 C06',
         note="Trusted: pyvc, z3 (polynomial reals), ghost contracts: block = direct sum, tensordot+fuse_legs = product (tensor level: C01, C03), contraction multilinear. The value part is complete in the data but bounded in structure (enumerated small chains). NOT decided (bounded stand-in only): zipper, variational compression, product states, mps_from_tensor.",
@@ -232,9 +238,12 @@ CLAIMED = {
               "early only when converged, yields every iterator_step; invalid arguments rejected. N = 2..5 (quick) / 2..8 (thorough). VALUES of the real "
               "environment classes (Env_mps_mpo_mps with and without precompute, Env_sum, Env_project) on small chains with symbolic data: measure == "
               "<bra|H|ket> however the environments were assembled, Heff0/Heff1/Heff2 are the projected Hamiltonian as multilinear forms, and "
-              "clear_site_ + update_env_ along a sweep leave no stale environment or cached pre-contraction after a site tensor changed."),
-        design_ref='DESIGN.md §5 C09',
-        note="Trusted: pyvc, ghost contracts of tensor operations and of the eigensolver (applies the map, returns a vector of the same shape). NOT decided (listed in evidence): variational bound, monotone decrease, eigenstate at convergence, orthogonality with projections, charge sector -- all rest on eigs/LAPACK and floating point.",
+              "clear_site_ + update_env_ along a sweep leave no stale environment or cached pre-contraction after a site tensor changed. NORMALISATION: with the "
+              "eigensolver's contract (unit Ritz vector), SVD's (|S| = |block|) and the mask's (kept^2 + discarded^2 = old^2, kept > 0), every sweep ends with "
+              "psi.factor == 1, sites 1..N-1 right-isometric and a unit first site, also when truncation binds and when the initial state carries a norm "
+              "factor. The penalty maps of Env_project are LINEAR: <A|Heff(B)> = penalty <ket|p><p|ket[B]> for B from another state, real and complex data."),
+        design_ref='DESIGN.md §5 C09, §12.11-12.13',
+        note="Trusted: pyvc, ghost contracts of tensor operations and of the eigensolver (applies the map, returns a unit vector of the same shape). NOT decided by proof (listed in evidence): variational bound, monotone decrease, eigenstate at convergence, orthogonality with projections, charge sector -- all rest on eigs/LAPACK and floating point; for these a BOUNDED native stand-in (contracts/alg_bounded.py: N = 3..5, three operator families, dense reference) runs with every check and is never counted as proved. One genuine defect found and fixed (2-site sweep returned an unnormalised state: fix d615172).",
         technique='symbolic execution of the real sweep drivers against ghost-state (provenance) contracts of environment updates; control flow is data independent, so one run per configuration covers all data',
     ),
     'C10': dict(
@@ -249,7 +258,7 @@ CLAIMED = {
               "ends without central block. Values of the effective Hamiltonians (Heff0/1/2, with and without precompute) and environment refresh: "
               "shared with C09."),
         design_ref='DESIGN.md §5 C10',
-        note="Trusted: pyvc, z3, ghost contracts (expmv applies the map and returns an evolved tensor). Floats as reals. NOT decided: norm/energy conservation, charge sector, exactness on the full manifold, convergence order (floating point). One genuine defect found and fixed (zero steps for intervals below 1e-12).",
+        note="Trusted: pyvc, z3, ghost contracts (expmv applies the map and returns an evolved tensor). Floats as reals. NOT decided by proof: norm/energy conservation, charge sector, exactness on the full manifold, convergence order (floating point); for these a BOUNDED native stand-in (contracts/alg_bounded.py: N = 3..4, u = i, 1, 0.6+0.8i, all methods and orders, against scipy.linalg.expm and an ODE reference) runs with every check and is never counted as proved. One genuine defect found and fixed (zero steps for intervals below 1e-12).",
         technique='symbolic execution over reals with an inductive invariant for the stepping loop; ghost-state protocol contracts for the sweeps',
     ),
     'C13': dict(
